@@ -195,6 +195,52 @@ def rule_r2(ctx):
     ctx.require(n >= 6, f"only {n} interface-mutation sites found")
 
 
+def _helper_of(f: FuncInfo, call: ast.Call):
+    """The private helper a call resolves to by name: `self._m(…)` of the same class, or `_g(…)` of the module."""
+    fn = call.func
+    if isinstance(fn, ast.Attribute) and isinstance(fn.value, ast.Name) and f.params and fn.value.id == f.params[0] and f.cls is not None:
+        g = f.cls.methods.get(fn.attr)
+        return g if g is not None and not isinstance(g.node, ast.Lambda) else None
+    if isinstance(fn, ast.Name):
+        g = f.module.functions.get(fn.id)
+        return g if g is not None and not isinstance(g.node, ast.Lambda) else None
+    return None
+
+
+def _helper_returns(g: FuncInfo, pos: int):
+    """Expressions the helper can return at tuple position pos (-1: the whole value), each with its return statement."""
+    for r in own_nodes(g.node):
+        if isinstance(r, ast.Return) and r.value is not None:
+            if pos == -1:
+                yield r.value, r
+            elif isinstance(r.value, ast.Tuple) and pos < len(r.value.elts):
+                yield r.value.elts[pos], r
+
+
+def _helper_depends(g: FuncInfo, pos: int, cn, depth: int) -> set[str]:
+    from ..canon import Canon
+
+    typer = cn.__self__.typer
+    cng = Canon(typer, g).cn
+    raw: set[str] = set()
+    for e, _r in _helper_returns(g, pos):
+        raw |= _depends(g, e, cng, 0 if depth < 4 else depth)  # the helper is read with a depth budget of its own (one level of helpers only)
+    # the helper's parameters printed like typed locals of the caller
+    env = typer.env(g)
+    ren = {}
+    for p_ in g.params:
+        cls = sorted({a[1].name for a in env.get(p_, ()) if a[0] == "cls"})
+        if len(cls) == 1:
+            ren[p_] = f"<{cls[0]}>"
+    out = set()
+    for d in raw:
+        for p_, c in ren.items():
+            if d == p_ or d.startswith(p_ + ".") or d.startswith(p_ + "("):
+                d = c + d[len(p_):]
+        out.add(d)
+    return out
+
+
 def _depends(f: FuncInfo, expr: ast.AST, cn, depth=0) -> set[str]:
     """Attribute/call texts (alpha-stable, see sa/canon.py) the expression data-depends on, through locals of f."""
     out = set()
@@ -219,6 +265,29 @@ def _depends(f: FuncInfo, expr: ast.AST, cn, depth=0) -> set[str]:
                             out |= _depends(f, n.value, cn, depth + 1)
                         elif not isinstance(t, ast.Subscript):
                             out |= _depends(f, val, cn, depth + 1)
+            # a local bound from the result of a helper (method of the same class / function of the module): what the helper
+            # returns at that position depends on, in the helper's own terms (its parameters printed by their class)
+            for n in own_nodes(f.node):
+                if not (isinstance(n, ast.Assign) and isinstance(n.value, ast.Call) and depth < 3):
+                    continue
+                pos = None
+                for t in n.targets:
+                    if isinstance(t, ast.Name) and t.id == x.id:
+                        pos = -1
+                    elif isinstance(t, ast.Tuple):
+                        for i_, y in enumerate(t.elts):
+                            if isinstance(y, ast.Name) and y.id == x.id:
+                                pos = i_
+                if pos is None:
+                    continue
+                g = _helper_of(f, n.value)
+                if g is None or getattr(cn.__self__, "_in_helper", False):
+                    continue
+                cn.__self__._in_helper = True
+                try:
+                    out |= _helper_depends(g, pos, cn, depth + 1)
+                finally:
+                    cn.__self__._in_helper = False
             # values fed into the object through its methods: h.update(data)
             for n in own_nodes(f.node):
                 if isinstance(n, ast.Call) and isinstance(n.func, ast.Attribute) and isinstance(n.func.value, ast.Name) \
@@ -324,7 +393,37 @@ def rule_r3(ctx):
         return any(d.endswith("AttributeType.GRAPH") for d in ds) and any(d.endswith("AttributeType.GRAPHS") for d in ds)
 
     conts = [n for n in own_nodes(f.node) if isinstance(n, ast.If) and any(isinstance(s_, ast.Continue) for s_ in n.body)]
-    cont = [n for n in conts if isinstance(n.test, ast.Name) and _flag_set_under(f, n.test.id, names_graph_kinds)]
+
+    def skip_from_helper(t) -> bool:
+        """`if <x> is not None: continue` / `if <x>: continue` where x is what a helper returns at some position, and the helper
+        returns something other than None / False there under a test naming both graph kinds."""
+        names = [y.id for y in ast.walk(t) if isinstance(y, ast.Name)]
+        for nm in names:
+            for n in own_nodes(f.node):
+                if not (isinstance(n, ast.Assign) and isinstance(n.value, ast.Call)):
+                    continue
+                pos = None
+                for tg in n.targets:
+                    if isinstance(tg, ast.Name) and tg.id == nm:
+                        pos = -1
+                    elif isinstance(tg, ast.Tuple):
+                        for i_, y in enumerate(tg.elts):
+                            if isinstance(y, ast.Name) and y.id == nm:
+                                pos = i_
+                g_ = _helper_of(f, n.value) if pos is not None else None
+                if g_ is None:
+                    continue
+                for e, r in _helper_returns(g_, pos):
+                    if isinstance(e, ast.Constant) and e.value in (None, False):
+                        continue
+                    p_ = getattr(r, "_parent", None)
+                    while p_ is not None and p_ is not g_.node:
+                        if isinstance(p_, ast.If) and names_graph_kinds(p_.test):
+                            return True
+                        p_ = getattr(p_, "_parent", None)
+        return False
+
+    cont = [n for n in conts if (isinstance(n.test, ast.Name) and _flag_set_under(f, n.test.id, names_graph_kinds)) or skip_from_helper(n.test)]
     nd = [n for n in conts if any(isinstance(x, ast.Call) and (dotted_of(x.func) or "") == "_is_non_deterministic_op" for x in ast.walk(n.test))]
     cfg = CFG(f.node)
     kn = cfg.nodes_containing(keys[0])[0]
@@ -334,6 +433,10 @@ def rule_r3(ctx):
               "control-flow or random nodes can be merged", how="both `continue` guards dominate the key lookup")
     g = repo.func(f"{CSE}:_is_non_deterministic_op")
     names = {x.value for x in ast.walk(g.node) if isinstance(x, ast.Constant) and isinstance(x.value, str)}
+    # … or in the module-level table the function looks the operator up in
+    for x in ast.walk(g.node):
+        if isinstance(x, ast.Name) and x.id in g.module.assigns:
+            names |= {y.value for y in ast.walk(g.module.assigns[x.id]) if isinstance(y, ast.Constant) and isinstance(y.value, str)}
     want = {"RandomUniform", "RandomNormal", "RandomUniformLike", "RandomNormalLike", "Multinomial"}
     ctx.check("R3", "non-deterministic op table covers the ONNX random operators", want <= names, g, g.node,
               f"missing {sorted(want - names)}", how="5-entry operator table", construct=f"nondeterministic ops missing {sorted(want - names)}")
